@@ -12,6 +12,7 @@
 //	batch <path> <format> <f|n> <seed> <mod> <lo> <hi>  TAB  cases=<n> <obs>@<kind>*<count> ...
 //	allfmt <path> <mut> <f|n>                           TAB  cases=<n> …    (one input with every format and probe)
 //	types <path> <format> <f|n> <seed> <mod> <dir> <max> TAB  cases=<n> …    (type-string substitution, see worker.go)
+//	runs <path> <format> <f|n> <seed> <mod> <lens> <max>  TAB  cases=<n> …    (long runs, see worker.go)
 //	fields <path> <format> <f|n> <seed> <mod> <max> <pats> TAB  cases=<n> …    (field-aware saturation, see worker.go)
 //	d|i <path> <mut> <format> <f|n>                     TAB  <obs>          (every panic / resource case, every `i` case, replays)
 //	core <prim> <arg> <buf bytes> <pos bits> <f|n>      TAB  ok | err:io | err:decoder | panic:… | resource:…
@@ -218,6 +219,10 @@ type tierParams struct {
 	modTypes    int // 1/mod sample of the type-string substitution
 	typesUnit   int
 	maxTypes    int // cases per types job
+	modRuns     int
+	runsUnit    int
+	runLens     string // lengths of the long runs
+	runFields   int    // header fields tried as size fields per (file, format)
 	fieldsUnit  int // bytes of file size per unit of the fields sampling modulus
 }
 
@@ -327,6 +332,17 @@ func genJobs(r *hlib.Rand, seed uint64, tp tierParams, o *hlib.Out, workDir stri
 			for _, force := range []string{"n", "f"} {
 				jobs = append(jobs, &job{text: fmt.Sprintf("fields %s %s %s %d %d %d %s", f.path, n, force, seed, mod, tp.maxFields, tp.fieldPats),
 					size: f.size, format: n})
+			}
+		}
+	}
+	// long runs (see worker.go runRuns): runs of 00 / ff of buffer-size lengths at padding-like places, and size
+	// fields pointed at an appended run of zeros
+	for _, i := range chosen {
+		f := files[i]
+		for _, n := range f.own {
+			mod := tp.modRuns * max(1, f.size/tp.runsUnit)
+			for _, force := range []string{"n", "f"} {
+				jobs = append(jobs, &job{text: fmt.Sprintf("runs %s %s %s %d %d %s %d", f.path, n, force, seed, mod, tp.runLens, tp.runFields), size: f.size, format: n})
 			}
 		}
 	}
@@ -560,9 +576,9 @@ func main() {
 			jobs = append(jobs, &job{text: l})
 		}
 	} else {
-		tp := tierParams{perDir: 12, modOwn: 50, modCross: 400, chunk: 300, modFields: 1, maxFields: 400, fieldPats: "zm", fieldsUnit: 1024, modTypes: 16, typesUnit: 4096, maxTypes: 400}
+		tp := tierParams{perDir: 12, modOwn: 50, modCross: 400, chunk: 300, modFields: 1, maxFields: 400, fieldPats: "zm", fieldsUnit: 1024, modTypes: 16, typesUnit: 4096, maxTypes: 400, modRuns: 1, runsUnit: 8192, runLens: "32768,65537", runFields: 12}
 		if cfg.Thorough() {
-			tp = tierParams{perDir: 60, modOwn: 6, modCross: 40, fullBelow: 400, chunk: 400, modFields: 1, maxFields: 2000, pairSeeds: true, fieldPats: "zo1ms", fieldsUnit: 1024, modTypes: 2, typesUnit: 8192, maxTypes: 3000}
+			tp = tierParams{perDir: 60, modOwn: 6, modCross: 40, fullBelow: 400, chunk: 400, modFields: 1, maxFields: 2000, pairSeeds: true, fieldPats: "zo1ms", fieldsUnit: 1024, modTypes: 2, typesUnit: 8192, maxTypes: 3000, modRuns: 1, runsUnit: 16384, runLens: "512,4096,4097,32768,32769,65536,65537,524289", runFields: 16}
 		}
 		if v, err := strconv.Atoi(os.Getenv("VERIF_C06_MOD")); err == nil && v > 0 {
 			tp.modOwn = v
